@@ -364,6 +364,59 @@ def run_case(case, part):
                     part.violation("C12/%s/reused-filterset/callers-filterset-grew" % store, "querying adds the source's filters to the caller's FilterSet", c, 1, n_after)
                 else:
                     part.outcome("reused-filterset:same")
+    # HISTORY through nested composites: a parent composite's attached filter applies to the operations that go THROUGH the parent, and to nothing afterwards
+    if len(specs) == 2:
+        from stix2 import CompositeDataSource
+        for store in ("mem", "fs"):
+            stored = w.stored[store]
+            for qs, at in ((specs[0], specs[1]), (specs[1], specs[0])):
+                try:
+                    exp_q = {k for k, v in stored if ref(qs, v) is True}
+                    exp_qa = {k for k, v in stored if ref(qs, v) is True and ref(at, v) is True}
+                except TypeError:
+                    continue
+                some_id = sorted(stored, key=str)[0][0][0] if stored else None
+                for first in ("query", "get", "all_versions"):
+                    c = {"filters": [list(qs), list(at)], "routes": [["query", "parent-composite-attached"]], "store": store, "first_operation_through_parent": first}
+                    try:
+                        child = CompositeDataSource()
+                        child.add_data_source(w.source(store))
+                        parent = CompositeDataSource()
+                        parent.add_data_source(child)
+                        parent.filters.add([mk_filter(at)])
+                        if first == "query":
+                            r1 = {key(o) for o in parent.query([mk_filter(qs)])}
+                        else:
+                            getattr(parent, first)(some_id)
+                            r1 = exp_qa
+                        r2 = {key(o) for o in child.query([mk_filter(qs)])}
+                        other = CompositeDataSource()
+                        other.add_data_source(child)
+                        r3 = {key(o) for o in other.query([mk_filter(qs)])}
+                        parent.filters.remove(mk_filter(at))
+                        r4 = {key(o) for o in parent.query([mk_filter(qs)])}
+                        n_child = len(list(child.filters))
+                    except Exception as e:
+                        if isinstance(e, TypeError) and any(x[0] in TS_PROPS for x in (qs, at)):
+                            continue
+                        part.violation("C12/query-raises/%s/nested-composite-history" % type(e).__name__, "a type-consistent query raises", c, "answers", "%s: %s" % (type(e).__name__, str(e)[:200]))
+                        continue
+                    part.transitions += 4
+                    part.evaluations += 4
+                    rows = (("through-parent", r1, exp_qa), ("child-directly-afterwards", r2, exp_q), ("through-another-parent", r3, exp_q), ("parent-after-its-filter-was-removed", r4, exp_q))
+                    bad = [n for n, got, want in rows if got != want]
+                    unreg = all(i.startswith("x-foo") for n, got, want in rows for i, _ in (got ^ want))
+                    if bad and unreg and any(x[0] in TS_PROPS and isinstance(x[2], str) for x in (qs, at)):
+                        continue            # the listed string-timestamp-vs-dict-kept-object finding, reported by the main loop
+                    if bad:
+                        part.outcome("nested-history:DIFFERS")
+                        part.violation("C12/%s/nested-composite-history/%s" % (store, "+".join(bad)), "a filter attached to a parent composite still applies to operations that do not go through it", c,
+                                       {n: sorted(want, key=str) for n, got, want in rows if got != want}, {n: sorted(got, key=str) for n, got, want in rows if got != want})
+                    elif n_child != 0:
+                        part.outcome("nested-history:DIFFERS")
+                        part.violation("C12/%s/nested-composite-history/childs-own-filters-grew" % store, "an operation through the parent adds the parent's filters to the child composite's own filter set", c, 0, n_child)
+                    else:
+                        part.outcome("nested-history:same")
     # conjunction = intersection of the parts, on the library's own answers (query route)
     if len(specs) >= 2:
         for store in ("mem", "fs"):
